@@ -92,13 +92,7 @@ def handle (op : String) (args res : List String) : Option Verdict :=
     | some inp, some [gs, ga1, ga2, ga12, es, ea1, ea2, ea12] =>
       if !inp.all F64.isFinite then .skip "non-finite input" else
       let rng (x : F64) (lo hi : Int) := x.isNaN || (F64.ge x (F64.ofInt lo) && F64.le x (F64.ofInt hi))
-      if !(rng ga12 0 180 && rng ea12 0 180) then
-        -- F61 (open): on the equatorial branch a12 = lon12/f1 exceeds 180 by a few ulp when lon12 is within round-off of the cut-off
-        let k := match inp with | [_, _, lat1, lon1, lat2, lon2] => some (canon lat1 lon1 lat2 lon2) | _ => none
-        let top : F64 := .fin false 6333186975989805 (-45)   -- 180 (1 + 2^-47): 64 ulp above 180
-        let small (x : F64) := x.isNaN || (F64.ge x (F64.ofInt 0) && F64.le x top)
-        let cls := match k with | some k => k.lat1.isZero && k.lat2.isZero && small ga12 && small ea12 | none => false
-        .bad s!"a12 outside [0,180]: series {showF ga12} exact {showF ea12}{if cls then " [class:equatorial-cutoff-ulp]" else ""}"
+      if !(rng ga12 0 180 && rng ea12 0 180) then .bad s!"a12 outside [0,180]: series {showF ga12} exact {showF ea12}"
       else if !(rng ga1 (-180) 180 && rng ga2 (-180) 180 && rng ea1 (-180) 180 && rng ea2 (-180) 180) then .bad "azimuth outside [-180,180]"
       else if !((gs.isNaN || F64.ge gs 0) && (es.isNaN || F64.ge es 0)) then .bad "negative s12"
       else .ok
